@@ -2,16 +2,17 @@ package codecs
 
 import (
 	"encoding/binary"
+	"errors"
 	"fmt"
 	"io"
 
 	"github.com/datastax/go-cassandra-native-protocol/compression/lz4"
-	pierrec "github.com/pierrec/lz4/v4"
 )
 
-// lz4Compressor is the native protocol library's LZ4 compressor with one difference: a body is decompressed into a
-// buffer of the decompressed length that precedes it. The library's `DecompressWithLength()` ignores that length and
-// tries buffers of up to eight times the compressed length, so it fails for bodies that compress better than that.
+// lz4Compressor is the native protocol library's LZ4 compressor with its own `DecompressWithLength()`: a body is
+// decompressed into a buffer of the decompressed length that precedes it, by the decoder below. The library ignores that
+// length and tries buffers of up to eight times the compressed length, so it fails for bodies that compress better than
+// that, and the block decoder it uses rejects some valid blocks (long runs of literals between matches).
 type lz4Compressor struct {
 	lz4.Compressor
 }
@@ -37,7 +38,7 @@ func (c lz4Compressor) DecompressWithLength(source io.Reader, dest io.Writer) er
 		return fmt.Errorf("cannot decompress message: invalid decompressed length %d for %d bytes", decompressedLength, len(compressed))
 	}
 	decompressed := make([]byte, decompressedLength)
-	written, err := pierrec.UncompressBlock(compressed, decompressed)
+	written, err := uncompressLz4Block(compressed, decompressed)
 	if err != nil {
 		return fmt.Errorf("cannot decompress message: %w", err)
 	}
@@ -45,4 +46,59 @@ func (c lz4Compressor) DecompressWithLength(source io.Reader, dest io.Writer) er
 		return fmt.Errorf("cannot write decompressed message: %w", err)
 	}
 	return nil
+}
+
+var errInvalidLz4Block = errors.New("lz4: invalid block or decompressed length too short")
+
+// uncompressLz4Block decodes an LZ4 block (a series of sequences: token, literal length, literals, offset, match length)
+// into `dst` and returns the number of bytes written. Nothing is read or written out of bounds.
+func uncompressLz4Block(src, dst []byte) (int, error) {
+	si, di := 0, 0
+	readLength := func(n int) (int, bool) {
+		if n == 15 {
+			for {
+				if si >= len(src) {
+					return 0, false
+				}
+				b := src[si]
+				si++
+				n += int(b)
+				if b != 255 {
+					break
+				}
+			}
+		}
+		return n, true
+	}
+	for si < len(src) {
+		token := src[si]
+		si++
+		n, ok := readLength(int(token >> 4))
+		if !ok || n > len(src)-si || n > len(dst)-di {
+			return 0, errInvalidLz4Block
+		}
+		copy(dst[di:], src[si:si+n])
+		si += n
+		di += n
+		if si == len(src) { // The last sequence only has literals
+			break
+		}
+		if len(src)-si < 2 {
+			return 0, errInvalidLz4Block
+		}
+		offset := int(src[si]) | int(src[si+1])<<8
+		si += 2
+		if offset == 0 || offset > di {
+			return 0, errInvalidLz4Block
+		}
+		if n, ok = readLength(int(token & 15)); !ok || n+4 > len(dst)-di {
+			return 0, errInvalidLz4Block
+		}
+		for n += 4; n > 0; { // A match can overlap what it produces, so it's copied in pieces of at most `offset` bytes
+			c := copy(dst[di:di+n], dst[di-offset:di])
+			di += c
+			n -= c
+		}
+	}
+	return di, nil
 }
